@@ -97,6 +97,8 @@ protected:
     int search_counter;
     bool stopFlag{false};
 #ifdef OPENSMT_VERIF
+    // "(tr <inst> <kind> <nVars> <trail size> (<trail_lim ...>))": shape of the trail at a search event
+    void verifTraceTrail(char const * kind) const;
     bool verifDerivedClause{false}; // clauses added while set are traced as derived ("d"), not original ("o")
     struct VerifDerivedScope {
         CoreSMTSolver & solver;
